@@ -54,8 +54,16 @@ func concurrentArm(r *mon.Run) {
 	var presentations, overlapped, aTurns atomic.Int64
 
 	for pi, p := range pairs {
-		if p.A.Key() == p.B.Key() || collisionClass(p.A, p.B) != "" {
-			r.Fatal("concurrent arm: pair %d must be two different, non-colliding identities", pi)
+		if p.A.Key() == p.B.Key() {
+			r.Fatal("concurrent arm: pair %d must be two different identities", pi)
+		}
+		if collisionClass(p.A, p.B) != "" {
+			// The forged cursor this arm uses (sealed for B, naming A's call id) is only a
+			// sound probe when the two identities have different cache identities; on a
+			// library where they collide the pair is skipped, and if every pair is skipped
+			// the arm's required classes stay unhit (INCONCLUSIVE, never "held").
+			r.Class("concurrent:pair-skipped:cache-key-collision")
+			continue
 		}
 		if keyLen(p.A) == keyLen(p.B) {
 			r.Class("concurrent:equal-key-length-pair")
